@@ -45,6 +45,7 @@ import (
 
 type c08Args struct {
 	Scn   int      `json:"scn"`
+	World string   `json:"world"`
 	Start int64    `json:"start"`
 	Txs   []string `json:"txs"`
 	Host  [][]string `json:"hostile"` // catalogue entries <<kind, parameter, class>> delivered in the block after the templates
@@ -241,6 +242,16 @@ func runTwins(t *testing.T, em *drv.Emitter, w *world, h drv.History, reruns int
 	}
 	var ia c08Args
 	must(json.Unmarshal(h.Steps[0].Args, &ia))
+	if ia.World == "" {
+		ia.World = "std"
+	}
+	if ia.World != "std" {
+		ww, stack := getWorldOf(ia.World)
+		if ww == nil {
+			t.Fatalf("history %d: world %s could not be prepared: %s", h.H, ia.World, shortStack(stack))
+		}
+		w = ww
+	}
 	if ia.Start < w.height {
 		ia.Start = w.height
 	}
@@ -262,7 +273,7 @@ func runTwins(t *testing.T, em *drv.Emitter, w *world, h drv.History, reruns int
 			script = append(script, names)
 		}
 	}
-	key, _ := json.Marshal([]any{ia.Start, script})
+	key, _ := json.Marshal([]any{ia.World, ia.Start, script})
 	ref, ok := cache[string(key)]
 	if !ok {
 		ref = w.reference(ia.Start, script, reruns)
@@ -341,7 +352,7 @@ func runTwins(t *testing.T, em *drv.Emitter, w *world, h drv.History, reruns int
 		}
 	}
 	// emit
-	em.Emit(map[string]any{"h": h.H, "i": 0, "act": "Init", "args": map[string]any{"scn": ia.Scn, "start": int(ia.Start)}, "res": "ok",
+	em.Emit(map[string]any{"h": h.H, "i": 0, "act": "Init", "args": map[string]any{"scn": ia.Scn, "start": int(ia.Start), "world": ia.World}, "res": "ok",
 		"whash": w.hash, "height": int(ia.Start), "delayed": delay, "reruns": reruns})
 	bi = 0
 	for i, st := range h.Steps[1:] {
@@ -582,6 +593,30 @@ func (c *chain) probe(kind string) (stable bool, n int, log string) {
 						return b.Bytes()
 					})
 				}
+			}
+		}
+	case "prunejail":
+		// what the pruning of the consensus end blocker does with every reported (delivered, not yet attested) message, on a
+		// discarded branch: who is jailed for not providing evidence
+		times = 32
+		for _, ch := range chains {
+			q := turnstoneQueue(ch)
+			for _, m := range c.queueMsgs(q) {
+				if m.GetPublicAccessData() == nil && m.GetErrorData() == nil {
+					continue
+				}
+				id := m.GetId()
+				eval(func() []byte {
+					cc := cache()
+					err := e.App.ConsensusKeeper.PruneJob(cc, q, id)
+					var b bytes.Buffer
+					fmt.Fprintf(&b, "%v|", err)
+					vals, _ := e.App.StakingKeeper.GetAllValidators(cc)
+					for _, v := range vals {
+						fmt.Fprintf(&b, "%s:%v|", v.GetOperator(), v.IsJailed())
+					}
+					return b.Bytes()
+				})
 			}
 		}
 	case "chaininfojail":
